@@ -305,3 +305,65 @@
         core::mem::forget(r);
         core::mem::forget(res);
     }
+
+    /// C19 inductive step (reader side), KEEP_LAST with NOT_ALIVE samples in the history.  KEEP_LAST(depth), depth 1..=2,
+    /// max_samples_per_instance in {unlimited, depth..=2} and max_samples in {unlimited, 2..=3}; two stored samples with
+    /// arbitrary instance handles and arbitrary kinds (ALIVE or NOT_ALIVE_DISPOSED) that respect depth and the limits; an
+    /// arbitrary incoming ALIVE sample.  Afterwards, whatever the outcome: no instance holds more samples (of any kind) than
+    /// max_samples_per_instance and no more ALIVE samples than depth, and the ALIVE total does not exceed max_samples; a
+    /// Rejected outcome leaves the history untouched.  (The KEEP_LAST exemption from the sample limits may only apply when
+    /// a sample is actually replaced.)
+    /// @props C19 C18
+    /// @kind bounded
+    /// @tier quick
+    /// @timeout 1500
+    /// @bounds 2 stored samples, 2 instance handles, kinds ALIVE / NOT_ALIVE_DISPOSED, depth 1..=2
+    /// @fn DataReaderEntity::add_reader_change
+    #[cfg_attr(kani, kani::proof)]
+    #[cfg_attr(kani, kani::stub(alloc::fmt::format, verif_support::fmt_format_stub))]
+    fn c19_reader_limits_hold_with_keep_last_and_not_alive_samples() {
+        let depth: u8 = kani::any();
+        kani::assume(depth == 1 || depth == 2);
+        let (mp, max_samples_per_instance) = any_limit(2);
+        kani::assume(mp == 0 || mp >= depth);
+        let (ms, max_samples) = any_limit(3);
+        kani::assume(ms == 0 || ms >= 2);
+        let limits = ResourceLimitsQosPolicy { max_samples, max_instances: Length::Unlimited, max_samples_per_instance };
+        let mut r = mk_reader(HistoryQosPolicyKind::KeepLast(depth as u32), DestinationOrderQosPolicyKind::ByReceptionTimestamp, limits);
+        let (b0, h0) = any_ih();
+        let (b1, h1) = any_ih();
+        let a0: bool = kani::any();
+        let a1: bool = kani::any();
+        let k0 = if a0 { ChangeKind::Alive } else { ChangeKind::NotAliveDisposed };
+        let k1 = if a1 { ChangeKind::Alive } else { ChangeKind::NotAliveDisposed };
+        // pre-state respects depth (ALIVE per instance) and the limits
+        let alive_same = (if a0 { 1 } else { 0 }) + (if a1 { 1 } else { 0 });
+        kani::assume(!(b0 == b1 && alive_same > depth));
+        kani::assume(mp == 0 || !(b0 == b1 && 2 > mp));
+        kani::assume(ms == 0 || alive_same <= ms);
+        r.sample_list.push(stored(10, h0, any_ts(), k0));
+        r.sample_list.push(stored(11, h1, any_ts(), k1));
+        let (bn, hn) = any_ih();
+        let res = r.add_reader_change(Guid::new([7; 12], crate::transport::types::EntityId::new([7, 7, 7], 7)), payload(12),
+            ChangeKind::Alive, *hn.as_ref(), Some(any_ts()), Time::new(1000, 0));
+        let l = &r.sample_list;
+        let mut per1 = 0u8; let mut per2 = 0u8; let mut al1 = 0u8; let mut al2 = 0u8;
+        let mut k = 0;
+        while k < l.len() {
+            let alive = l[k].kind == ChangeKind::Alive;
+            if l[k].instance_handle == ih(1) { per1 += 1; if alive { al1 += 1; } } else { per2 += 1; if alive { al2 += 1; } }
+            k += 1;
+        }
+        assert!(mp == 0 || (per1 <= mp && per2 <= mp), "C19: never more samples per instance than max_samples_per_instance");
+        assert!(al1 <= depth && al2 <= depth, "C18: never more ALIVE samples per instance than the KEEP_LAST depth");
+        assert!(ms == 0 || al1 + al2 <= ms, "C19: never more ALIVE samples than max_samples");
+        if outcome(&res) == 2 {
+            assert!(l.len() == 2 && tag_of(&l[0]) == 10 && tag_of(&l[1]) == 11, "C19: a rejected sample stores nothing and removes nothing");
+        }
+        kani::cover!(outcome(&res) == 2);
+        kani::cover!(outcome(&res) == 0 && l.len() == 2);
+        kani::cover!(outcome(&res) == 0 && l.len() == 3);
+        kani::cover!(!a0 && b0 == bn && b1 == bn && a1 && depth == 2 && mp == 2);
+        core::mem::forget(r);
+        core::mem::forget(res);
+    }
